@@ -103,8 +103,7 @@ def _to_gff_str(o, *args, **kwargs):
 
 def _export_qualifiers_with_parent(o, pq):
     # parent qualifiers as the library passes them between levels: dict of sets
-    pq = {k: set(v) for k, v in pq.items()} if pq is not None else None
-    return o.export_qualifiers(pq)
+    return o.export_qualifiers(pq)  # pq: dict of sets built by the plan interpreter, so that a change to it is seen
 
 
 def _construct_frames(o, frame):
